@@ -1,6 +1,9 @@
-(** Findings for C08: three places where the capability flags of the unchanged code are not
-    truthful.  Each is a witness for the faithful model [C08.Calculus] of the flag logic:
-    the hypotheses [wf] / [wf_eval] of the truthfulness theorems cannot be dropped. *)
+(** Finding for C08: the one place where a capability flag of the code is not truthful.
+    A witness for the faithful model [C08.Calculus] of the flag logic: the hypothesis
+    "scales are positive" of the truthfulness theorem cannot be dropped.
+    (The two former findings about Loss.has_prox / Loss.has_eval ignoring the flags of f were
+    repaired in /repo; the model now transcribes the repaired __init__ and the corresponding
+    well-formedness hypotheses are gone.) *)
 From Coq Require Import Reals Lra Bool List.
 From SV Require Import Base.Num Base.InnerSpace Prox.ProxTheory C02.Basics C02.Norms
   C08.WLS C08.Calculus C08.Exec.
@@ -11,29 +14,7 @@ Definition sq_base : basefun RSpace :=
   {| bdom := Tr; bf := @nsq RSpace; bprox := fun lam v => @vscale RSpace (/ (1 + 2 * lam)) v;
      b_has_eval := true; b_has_prox := true;
      b_ok := fun _ lam v H => @sql2_prox RSpace lam v H |}.
-(** a functional without __call__ (e.g. a denoiser pseudo-functional): has_eval = False *)
-Definition noeval_base : basefun RSpace :=
-  {| bdom := Tr; bf := fun _ => 0; bprox := fun _ v => v;
-     b_has_eval := false; b_has_prox := true;
-     b_ok := fun _ lam v _ => @C02.Sets.zero_prox RSpace lam v |}.
-
-(** (1) Loss(y, f = f1 + f2): Loss.__init__ sets has_prox = True (f is not None and A is an
-    Identity) although FunctionalSum has no prox: the flag is True and prox raises *)
-Theorem Loss_has_prox_ignores_inner_flag_refuted :
-  exists e : fexpr RSpace, gen_has_prox e = true /\ forall lam v, gen_prox e lam v = None.
-Proof.
-  exists (LossOf RSpace FIdentity (fun x => x) (Sum RSpace (Base _ sq_base) (Base _ sq_base)) 0 1).
-  split; reflexivity.
-Qed.
-
-(** (2) Loss(y, f) with f.has_eval = False: Loss.has_eval is True and __call__ raises *)
-Theorem Loss_has_eval_ignores_inner_flag_refuted :
-  exists e : fexpr RSpace, gen_has_eval e = true /\ forall x, gen_eval e x = None.
-Proof.
-  exists (LossOf RSpace FIdentity (fun x => x) (Base _ noeval_base) 0 1). split; reflexivity.
-Qed.
-
-(** (3) negative scale: (-1)*SquaredL2Norm has has_prox = True; prox(v, 1) returns
+(** negative scale: (-1)*SquaredL2Norm has has_prox = True; prox(v, 1) returns
     v/(1 - 2) = -v, but -x^2 + 1/2 (x - v)^2 is unbounded below: no minimiser exists *)
 Theorem Scaled_negative_has_prox_refuted :
   exists (e : fexpr RSpace) (lam v p : R), 0 < lam /\ gen_has_prox e = true /\
